@@ -510,7 +510,15 @@ impl Run {
         let tickets: &[usize; 5] = match tickets {
             Some(t) => t,
             None => {
-                own = [self.ticket_for(name); 5];
+                // the gate being released stays open up to `tk`: the task must come back with a larger ticket or it
+                // would run straight through its next message (a task released ahead of its scheduled step would get
+                // the ticket of that same step again)
+                let mut t = self.ticket_for(name);
+                if t <= tk {
+                    self.tail += 1;
+                    t = self.nsteps.max(tk) + self.tail;
+                }
+                own = [t; 5];
                 &own
             }
         };
@@ -748,7 +756,8 @@ fn run_replay(rt: &tokio::runtime::Runtime, spec: &Value, port: u16) {
             "latch" => run.set_latch(x == "on"),
             "sleep" => std::thread::sleep(Duration::from_millis(s["ms"].as_u64().unwrap_or(1))),
             "waitq" => {
-                if let Err(why) = run.waiting_query(i, s["polls"].as_u64().unwrap_or(4)) {
+                if let Err(why) = run.waiting_query(i, s["polls"].as_u64().unwrap_or(4), s["drop"].as_u64().unwrap_or(0) as usize,
+                                                    s["late_ms"].as_u64().unwrap_or(0), s["down"].as_bool().unwrap_or(false)) {
                     run.desync(why);
                     stuck = true;
                     break 'steps;
@@ -897,16 +906,63 @@ fn run_replay(rt: &tokio::runtime::Runtime, spec: &Value, port: u16) {
 
 /// A byte-for-byte TCP forwarder in front of the listener that records the head of every request passing through:
 /// what the listener receives from the real `ProvisionQuery` client, poll by poll.
-fn capture_forwarder(listen_port: u16, target_port: u16, stop: Arc<AtomicBool>, seen: Arc<Mutex<Vec<Vec<(String, String)>>>>) -> Result<std::thread::JoinHandle<()>, String> {
-    let l = std::net::TcpListener::bind(("127.0.0.1", listen_port)).map_err(|e| format!("forwarder bind {}: {}", listen_port, e))?;
-    l.set_nonblocking(true).map_err(|e| e.to_string())?;
+/// `drop_first`: the first k connections are closed without an answer (after their request head was read);
+/// `late_ms`: the port is bound only after that delay (connection refused until then).  `answers`: the response bodies.
+#[allow(clippy::too_many_arguments)]
+fn capture_forwarder(listen_port: u16, target_port: u16, stop: Arc<AtomicBool>, seen: Arc<Mutex<Vec<Vec<(String, String)>>>>,
+                     answers: Arc<Mutex<Vec<String>>>, drop_first: usize, late_ms: u64) -> Result<std::thread::JoinHandle<()>, String> {
+    // bound before the client starts, unless the port is to refuse connections for a while
+    let pre = if late_ms == 0 {
+        Some(std::net::TcpListener::bind(("127.0.0.1", listen_port)).map_err(|e| format!("forwarder bind {}: {}", listen_port, e))?)
+    } else {
+        None
+    };
     Ok(std::thread::spawn(move || {
+        let l = match pre {
+            Some(l) => l,
+            None => {
+                std::thread::sleep(Duration::from_millis(late_ms));
+                match std::net::TcpListener::bind(("127.0.0.1", listen_port)) {
+                    Ok(l) => l,
+                    Err(_) => return,
+                }
+            }
+        };
+        let _ = l.set_nonblocking(true);
+        let mut nconn = 0usize;
         while !stop.load(Ordering::SeqCst) {
             match l.accept() {
                 Ok((mut c, _)) => {
                     let seen = seen.clone();
+                    let answers = answers.clone();
+                    nconn += 1;
+                    let dropped = nconn <= drop_first;
                     std::thread::spawn(move || {
                         let _ = c.set_nonblocking(false);
+                        if dropped {
+                            // read the request head, then close without a byte of answer
+                            let _ = c.set_read_timeout(Some(Duration::from_millis(500)));
+                            let mut acc: Vec<u8> = Vec::new();
+                            let mut buf = [0u8; 4096];
+                            while !acc.windows(4).any(|w| w == b"\r\n\r\n") {
+                                match c.read(&mut buf) {
+                                    Ok(0) | Err(_) => break,
+                                    Ok(n) => acc.extend_from_slice(&buf[..n]),
+                                }
+                            }
+                            let head = String::from_utf8_lossy(&acc).to_string();
+                            let mut h: Vec<(String, String)> = vec![(":dropped".to_string(), "true".to_string())];
+                            for (n, line) in head.split("\r\n").enumerate() {
+                                if n == 0 {
+                                    h.push((":request".to_string(), line.to_string()));
+                                } else if let Some((k, v)) = line.split_once(':') {
+                                    h.push((k.trim().to_ascii_lowercase(), v.trim().to_string()));
+                                }
+                            }
+                            seen.lock().unwrap().push(h);
+                            let _ = c.shutdown(std::net::Shutdown::Both);
+                            return;
+                        }
                         let mut up = match std::net::TcpStream::connect(("127.0.0.1", target_port)) {
                             Ok(u) => u,
                             Err(_) => return,
@@ -917,16 +973,19 @@ fn capture_forwarder(listen_port: u16, target_port: u16, stop: Arc<AtomicBool>, 
                         };
                         std::thread::spawn(move || {
                             let mut buf = [0u8; 8192];
+                            let mut all: Vec<u8> = Vec::new();
                             loop {
                                 match up_r.read(&mut buf) {
                                     Ok(0) | Err(_) => break,
                                     Ok(n) => {
+                                        all.extend_from_slice(&buf[..n]);
                                         if c_w.write_all(&buf[..n]).is_err() {
                                             break;
                                         }
                                     }
                                 }
                             }
+                            answers.lock().unwrap().push(String::from_utf8_lossy(&all).to_string());
                             let _ = c_w.shutdown(std::net::Shutdown::Both);
                         });
                         let mut acc: Vec<u8> = Vec::new();
@@ -969,8 +1028,10 @@ impl Run {
     /// The real client of `--status --wait` (provision_query::ProvisionQuery, as main.rs builds it) against the real
     /// listener, for about `polls` polls, nothing else moving; no key keeper task runs, so the notification of the first
     /// poll is not served.  Records every request the listener received (tick / notify headers) and what the client returned.
-    fn waiting_query(&mut self, i: u64, polls: u64) -> Result<(), String> {
-        if !self.tasks.get("ls").map(|t| t.serving).unwrap_or(false) {
+    /// Reachability of the listener is an environment dimension: `drop_first` polls get no answer, `late_ms` the port
+    /// refuses connections until then, `down` nothing listens for the whole wait.
+    fn waiting_query(&mut self, i: u64, polls: u64, drop_first: usize, late_ms: u64, down: bool) -> Result<(), String> {
+        if !down && !self.tasks.get("ls").map(|t| t.serving).unwrap_or(false) {
             verif::trace::emit(json!({"e": "Skip", "run": self.id, "k": self.k, "t": "q", "i": i, "a": "waitq"}));
             return Ok(());
         }
@@ -980,7 +1041,8 @@ impl Run {
         let fport = self.port.wrapping_add(12000);
         let stop = Arc::new(AtomicBool::new(false));
         let seen: Arc<Mutex<Vec<Vec<(String, String)>>>> = Arc::new(Mutex::new(Vec::new()));
-        let fw = capture_forwarder(fport, self.port, stop.clone(), seen.clone())?;
+        let answers: Arc<Mutex<Vec<String>>> = Arc::new(Mutex::new(Vec::new()));
+        let fw = if down { None } else { Some(capture_forwarder(fport, self.port, stop.clone(), seen.clone(), answers.clone(), drop_first, late_ms)?) };
         // get_provision_status_wait polls while wait_duration >= time since process start
         let d = Duration::from_millis(crate::common::helpers::get_elapsed_time_in_millisec() as u64 + polls.saturating_sub(1) * 100 + 50);
         let before = now_nanos();
@@ -990,16 +1052,23 @@ impl Run {
             tokio::time::timeout(Duration::from_secs(8), query.get_provision_status_wait()).await
         });
         stop.store(true, Ordering::SeqCst);
-        let _ = fw.join();
-        let reqs: Vec<Value> = seen.lock().unwrap().iter().map(|h| {
+        if let Some(h) = fw {
+            let _ = h.join();
+        }
+        std::thread::sleep(Duration::from_millis(5));
+        let reqs: Vec<Value> = seen.lock().unwrap().iter().filter(|h| h.iter().any(|(n, _)| n == ":request")).map(|h| {
             let get = |k: &str| h.iter().find(|(n, _)| n == k).map(|(_, v)| v.clone());
-            json!({"tick": get("x-ms-azure-time_tick"), "notify": get("x-ms-azure-notify").is_some(), "line": get(":request")})
+            json!({"tick": get("x-ms-azure-time_tick"), "notify": get("x-ms-azure-notify").is_some(), "line": get(":request"),
+                   "dropped": get(":dropped").is_some()})
         }).collect();
+        let said_finished = answers.lock().unwrap().iter().any(|a| a.contains("\"finished\":true"));
+        let answered = answers.lock().unwrap().iter().filter(|a| a.contains("\"finished\"")).count();
         match res {
             Ok(st) => {
                 let out = Outcome::Done;
                 self.emit_step("q", i, "waitq", "-", &out, json!({"g": "ask", "op": "Q", "stage": 1, "exp": "waitq", "extra": false, "sub": "-",
                     "qkind": "wait", "created_between": [before.to_string(), after.to_string()], "polls": reqs,
+                    "answered": answered, "said_finished": said_finished, "env": {"drop_first": drop_first, "late_ms": late_ms, "down": down},
                     "status": 200, "body": serde_json::to_string(&st).unwrap_or_default()}), true);
                 Ok(())
             }
